@@ -32,6 +32,9 @@
 #include "vf/fork.hpp"
 
 #include "Basic/MathFunc.hpp"
+#include "Anamorphosis/AnamHermite.hpp"
+#include "Geometry/Rotation.hpp"
+#include "Basic/Tensor.hpp"
 #include "Basic/OptCst.hpp"
 #include "Basic/OptCustom.hpp"
 #include "Enum/ECst.hpp"
@@ -1363,6 +1366,380 @@ VF_PART(copies)
     }
     C.sample("{\"type\":" + jstr(c.type) + ",\"kind\":" + jstr(KINDS[kind]) + ",\"order\":" + std::to_string(order) + "}");
   });
+}
+
+
+// ================================================================================================================
+// parts incr_* : an object updated incrementally answers as a freshly built one with the same final content
+//
+// For every history of public setters the harness keeps its own record of the final CONTENT (a boring reference model of
+// what each setter documents: "this radius becomes r", "all radii become r", "the angle becomes a" ...), builds a second
+// object from scratch with that content through the constructor / factory route, and compares the COMPLETE observable
+// answer of both objects: every getter (incl. the derived flags and scalar forms), toString, the serialized text, values
+// on a menu, and one downstream use.  Histories are not pruned (a hidden derived flag is exactly what is looked for).
+namespace inc
+{
+struct Fld { std::string name; std::string text; std::vector<double> v; };
+typedef std::vector<Fld> Answer;
+static void fn(Answer& a, const std::string& n, double x) { a.push_back({n, "", {x}}); }
+static void fv(Answer& a, const std::string& n, const VectorDouble& x) { Fld f{n, "n=" + std::to_string(x.size()), {}}; for (double e : x) f.v.push_back(e); a.push_back(f); }
+static void ft(Answer& a, const std::string& n, const std::string& t) { a.push_back({n, t, {}}); }
+static void fm(Answer& a, const std::string& n, const AMatrix& m) { Fld f{n, std::to_string(m.getNRows()) + "x" + std::to_string(m.getNCols()), {}}; for (int i = 0; i < m.getNRows(); i++) for (int j = 0; j < m.getNCols(); j++) f.v.push_back(m.getValue(i, j)); a.push_back(f); }
+static const double TOL = 1e-9;
+// names of the fields that differ (in the order of the answer) and a description of the first one
+static std::vector<std::string> differ(const Answer& a, const Answer& b, std::string* why)
+{
+  std::vector<std::string> d;
+  for (size_t k = 0; k < a.size() && k < b.size(); k++)
+  {
+    bool bad = a[k].text != b[k].text || a[k].v.size() != b[k].v.size();
+    std::string w;
+    if (bad) w = a[k].name + ": '" + a[k].text.substr(0, 300) + "' vs '" + b[k].text.substr(0, 300) + "'";
+    else
+      for (size_t i = 0; i < a[k].v.size(); i++)
+        if (!same_double(a[k].v[i], b[k].v[i]) && !(std::isnan(a[k].v[i]) && std::isnan(b[k].v[i])) && !close(a[k].v[i], b[k].v[i], TOL))
+        { bad = true; w = a[k].name + "[" + std::to_string(i) + "] = " + fmt(a[k].v[i]) + " vs " + fmt(b[k].v[i]); break; }
+    if (bad) { if (d.empty() && why) *why = w; d.push_back(a[k].name); }
+  }
+  return d;
+}
+// generic exploration: ops on (object, content record); fresh(content) builds the second object; answer(obj) observes
+template<class T, class CT>
+static void explore(Ctx& C, const std::string& cls, int nops, int depth, std::function<T*()> initial, std::function<CT()> content0,
+                    std::function<bool(T*, CT&, int)> apply, std::function<std::string(int)> opname, std::function<T*(const CT&)> fresh,
+                    std::function<Answer(T*)> answer, std::function<uint64_t(const CT&)> ckey, std::function<void(T*)> destroy = [](T* t) { delete t; })
+{
+  bfs(C, nops, depth, [&](const History& h) -> StepResult {
+    StepResult sr;
+    T* obj = initial();
+    CT ct = content0();
+    for (int op : h) if (!apply(obj, ct, op)) { destroy(obj); sr.enabled = false; sr.expand = false; return sr; }
+    sr.key = Hash().s(hist_str(h)).h;  // never merged
+    all_states().keys.insert(Hash().s(cls).u(ckey(ct)).h);
+    if (h.empty()) { destroy(obj); return sr; }
+    T* fr = fresh(ct);
+    Answer a = answer(obj), b = answer(fr);
+    std::string why;
+    std::vector<std::string> d = differ(a, b, &why);
+    std::string hs;
+    for (size_t k = 0; k < h.size(); k++) hs += (k ? " ; " : "") + opname(h[k]);
+    if (h.size() > 1) C.nontrivial(Hash().s(cls).s(hist_str(h)).h);
+    if (d.empty()) C.outcome("same-as-fresh");
+    else
+    {
+      std::string all;
+      for (auto& x : d) all += (all.empty() ? "" : ",") + x;
+      C.outcome("DIFFERENT:" + d[0]);
+      C.violation("incr:" + cls + ":" + d[0], cls + " after [" + hs + "] answers differently from a freshly built object with the same final content: " + why + "; differing answers: " + all, hist_str(h));
+      sr.expand = false;
+    }
+    if (Hash().s(hist_str(h)).h % 3001 == 0) C.sample("{\"class\":" + jstr(cls) + ",\"history\":" + jstr(hs) + "}");
+    destroy(obj); destroy(fr);
+    return sr;
+  }, false);
+}
+
+// ---------------------------------------------------------------------------------------------- CovAniso through a Model
+struct CovContent { double sc[2]; double ang; double sill; double param; };
+static Db* g_lag = nullptr; static Db* g_dat = nullptr; static Db* g_tgt = nullptr; static DbGrid* g_grid = nullptr; static NeighUnique* g_unique = nullptr;
+static void cov_world()
+{
+  if (g_lag) return;
+  g_lag = make_db_xz({{0, 1, 0, 3, 12}, {0, 0, 1, 2, -2}}, {{0, 0, 0, 0, 0}});
+  g_dat = make_db_xz({{0, 2, 1}, {0, 1, 3}}, {{1, 2, 0.5}});
+  g_tgt = make_db_xz({{0.5, 1.5}, {1.25, 0.25}}, {});
+  g_grid = DbGrid::create({2, 2}, {1.5, 1.}, {0.25, 0.5});
+  g_unique = NeighUnique::create();
+}
+static const int COV_NOPS = 24;
+static std::string cov_opname(int op)
+{
+  static const char* n[COV_NOPS] = {"setRangeIsotropic(10)", "setRangeIsotropic(4)", "setRange(0,4)", "setRange(0,10)", "setRange(1,4)", "setRange(1,10)", "setRanges({4,10})", "setRanges({10,4})", "setRanges({10,10})",
+    "setScale(5)", "setScale(0,2)", "setScale(1,2)", "setScale(1,5)", "setScales({2,5})", "setScales({5,5})", "setAnisoAngles({30,0})", "setAnisoAngles({0,0})", "setAnisoAngle(0,45)", "setAnisoRotation(Rotation 30)",
+    "setAnisoRotation(identity matrix)", "setRotationAnglesAndRadius({30,0},ranges {4,10})", "setRotationAnglesAndRadius({},{},scales {5,5})", "setSill(3)", "setParam(2)"};
+  return n[op];
+}
+static bool cov_apply(Model* m, CovContent& c, int op)
+{
+  CovAniso* cv = m->getCova(0);
+  double sd = cv->getScadef();
+  switch (op)
+  {
+    case 0: cv->setRangeIsotropic(10.); c.sc[0] = c.sc[1] = 10. / sd; break;
+    case 1: cv->setRangeIsotropic(4.); c.sc[0] = c.sc[1] = 4. / sd; break;
+    case 2: cv->setRange(0, 4.); c.sc[0] = 4. / sd; break;
+    case 3: cv->setRange(0, 10.); c.sc[0] = 10. / sd; break;
+    case 4: cv->setRange(1, 4.); c.sc[1] = 4. / sd; break;
+    case 5: cv->setRange(1, 10.); c.sc[1] = 10. / sd; break;
+    case 6: cv->setRanges({4., 10.}); c.sc[0] = 4. / sd; c.sc[1] = 10. / sd; break;
+    case 7: cv->setRanges({10., 4.}); c.sc[0] = 10. / sd; c.sc[1] = 4. / sd; break;
+    case 8: cv->setRanges({10., 10.}); c.sc[0] = c.sc[1] = 10. / sd; break;
+    case 9: cv->setScale(5.); c.sc[0] = c.sc[1] = 5.; break;
+    case 10: cv->setScale(0, 2.); c.sc[0] = 2.; break;
+    case 11: cv->setScale(1, 2.); c.sc[1] = 2.; break;
+    case 12: cv->setScale(1, 5.); c.sc[1] = 5.; break;
+    case 13: cv->setScales({2., 5.}); c.sc[0] = 2.; c.sc[1] = 5.; break;
+    case 14: cv->setScales({5., 5.}); c.sc[0] = c.sc[1] = 5.; break;
+    case 15: cv->setAnisoAngles({30., 0.}); c.ang = 30.; break;
+    case 16: cv->setAnisoAngles({0., 0.}); c.ang = 0.; break;
+    case 17: cv->setAnisoAngle(0, 45.); c.ang = 45.; break;
+    case 18: { Rotation r(2); r.setAngles({30., 0.}); cv->setAnisoRotation(r); c.ang = 30.; break; }
+    case 19: cv->setAnisoRotation(VectorDouble({1., 0., 0., 1.})); c.ang = 0.; break;
+    case 20: cv->setRotationAnglesAndRadius({30., 0.}, {4., 10.}, VectorDouble()); c.ang = 30.; c.sc[0] = 4. / sd; c.sc[1] = 10. / sd; break;
+    case 21: cv->setRotationAnglesAndRadius(VectorDouble(), VectorDouble(), {5., 5.}); c.sc[0] = c.sc[1] = 5.; break;
+    case 22: cv->setSill(3.); c.sill = 3.; break;
+    case 23: if (!cv->hasParam()) return false; cv->setParam(2.); c.param = 2.; break;  // the scales are the stored content: they do not move
+  }
+  return true;
+}
+static Answer cov_answer(Model* m)
+{
+  Answer a;
+  const CovAniso* cv = m->getCova(0);
+  fn(a, "isIsotropic", cv->isIsotropic()); fn(a, "getFlagAniso", cv->getFlagAniso()); fn(a, "getFlagRotation", cv->getFlagRotation());
+  fn(a, "getRange()", cv->getRange()); fn(a, "getScale()", cv->getScale());
+  fv(a, "getRanges", cv->getRanges()); fv(a, "getScales", cv->getScales());
+  fn(a, "getRange(0)", cv->getRange(0)); fn(a, "getRange(1)", cv->getRange(1)); fn(a, "getScale(0)", cv->getScale(0)); fn(a, "getScale(1)", cv->getScale(1));
+  fv(a, "getAnisoAngles", cv->getAnisoAngles()); fm(a, "getAnisoRotMat", cv->getAnisoRotMat()); fm(a, "getAnisoInvMat", cv->getAnisoInvMat()); fv(a, "getAnisoCoeffs", cv->getAnisoCoeffs());
+  fm(a, "tensorDirect", cv->getAniso().getTensorDirect()); fm(a, "tensorInverse", cv->getAniso().getTensorInverse()); fm(a, "tensorDirect2", cv->getAniso().getTensorDirect2());
+  fn(a, "getSill", cv->getSill(0, 0)); fn(a, "getParam", cv->getParam()); fn(a, "getSlope", cv->getSlope(0, 0)); fn(a, "getScadef", cv->getScadef());
+  fn(a, "isValidForTurningBand", cv->isValidForTurningBand());
+  fn(a, "Model::getMaximumDistance", m->getMaximumDistance());
+  ft(a, "CovAniso::toString", cv->toString()); ft(a, "Tensor::toString", cv->getAniso().toString()); ft(a, "Model::toString", m->toString());
+  { std::ostringstream os; m->_serialize(os, false); ft(a, "serialized", os.str()); }
+  fm(a, "covariance-on-lag-menu", m->evalCovMatrix(g_lag, g_lag));
+  fn(a, "eval0", m->eval0(0, 0));
+  {
+    Db* d = g_dat->clone(); Db* t = g_tgt->clone();
+    int n0 = t->getColumnNumber();
+    int rc = kriging(d, t, m, g_unique);
+    Fld f{"kriging(3 data -> 2 targets)", "rc=" + std::to_string(rc), {}};
+    for (int ic = n0; ic < t->getColumnNumber(); ic++) for (int ie = 0; ie < t->getSampleNumber(); ie++) f.v.push_back(t->getValueByColIdx(ie, ic));
+    a.push_back(f); delete d; delete t;
+  }
+  {
+    DbGrid* g = g_grid->clone();
+    int n0 = g->getColumnNumber();
+    int rc = simtub(nullptr, g, m, nullptr, 1, 7, 10);
+    Fld f{"simtub(seed 7, 4 nodes)", "rc=" + std::to_string(rc), {}};
+    for (int ic = n0; ic < g->getColumnNumber(); ic++) for (int ie = 0; ie < g->getSampleNumber(); ie++) f.v.push_back(g->getValueByColIdx(ie, ic));
+    a.push_back(f); delete g;
+  }
+  return a;
+}
+static void cov_explore(Ctx& C, const ECov& type, const std::string& tname, int depth)
+{
+  cov_world();
+  double param0 = 1.;
+  explore<Model, CovContent>(C, "CovAniso(" + tname + ")", COV_NOPS, depth,
+    [&]() { return Model::createFromParam(type, 10., 2., param0); },
+    [&]() { Model* t = Model::createFromParam(type, 10., 2., param0); double sd = t->getCova(0)->getScadef(); delete t; return CovContent{{10. / sd, 10. / sd}, 0., 2., param0}; },
+    cov_apply, cov_opname,
+    [&](const CovContent& c) { return Model::createFromParam(type, 1., c.sill, c.param, {c.sc[0], c.sc[1]}, VectorDouble(), {c.ang, 0.}, nullptr, false); },
+    cov_answer,
+    [](const CovContent& c) { return Hash().d(c.sc[0]).d(c.sc[1]).d(c.ang).d(c.sill).d(c.param).h; });
+}
+}  // namespace inc
+VF_PART(incr_cov_spherical) { inc::cov_explore(C, ECov::SPHERICAL, "spherical", C.thorough() ? 4 : 3); }
+VF_PART(incr_cov_exponential) { inc::cov_explore(C, ECov::EXPONENTIAL, "exponential", 3); }
+VF_PART(incr_cov_matern) { inc::cov_explore(C, ECov::MATERN, "matern", 3); }
+
+// ---------------------------------------------------------------------------------------------- dense matrices
+namespace inc
+{
+struct MatContent { double m[3][3]; };
+static const int MAT_NOPS = 15;
+static std::string mat_opname(int op)
+{
+  static const char* n[MAT_NOPS] = {"setValue(0,1,2)", "setValue(2,2,5)", "addScalar(0.5)", "addScalarDiag(1)", "prodScalar(2)", "prodScalar(0.5)", "addMatInPlace(Y)", "addMatInPlace(Y,2,-1)", "setDiagonal({1,2,3})",
+    "setDiagonalToConstant(3)", "fill(1.5)", "linearCombination(2,this,1,Y)", "computeEigen()", "determinant()", "invert() of a copy"};
+  return n[op];
+}
+template<class M> static M* mat_make(const MatContent& c) { M* m = new M(3); for (int i = 0; i < 3; i++) for (int j = 0; j < 3; j++) if (j <= i || !std::is_same<M, MatrixSquareSymmetric>::value) m->setValue(i, j, c.m[i][j]); return m; }
+static MatContent mat_Y() { return MatContent{{{1, 0.5, 0}, {0.5, 1, 0}, {0, 0, 1}}}; }
+template<class M> static bool mat_apply(M* m, MatContent& c, int op)
+{
+  static M* Y = mat_make<M>(mat_Y());
+  MatContent y = mat_Y();
+  bool sym = std::is_same<M, MatrixSquareSymmetric>::value;
+  switch (op)
+  {
+    case 0: m->setValue(0, 1, 2.); c.m[0][1] = 2.; if (sym) c.m[1][0] = 2.; break;
+    case 1: m->setValue(2, 2, 5.); c.m[2][2] = 5.; break;
+    case 2: m->addScalar(0.5); for (auto& r : c.m) for (double& x : r) x += 0.5; break;
+    case 3: m->addScalarDiag(1.); for (int i = 0; i < 3; i++) c.m[i][i] += 1.; break;
+    case 4: m->prodScalar(2.); for (auto& r : c.m) for (double& x : r) x *= 2.; break;
+    case 5: m->prodScalar(0.5); for (auto& r : c.m) for (double& x : r) x *= 0.5; break;
+    case 6: m->addMatInPlace(*Y); for (int i = 0; i < 3; i++) for (int j = 0; j < 3; j++) c.m[i][j] += y.m[i][j]; break;
+    case 7: m->addMatInPlace(*Y, 2., -1.); for (int i = 0; i < 3; i++) for (int j = 0; j < 3; j++) c.m[i][j] = 2. * c.m[i][j] - y.m[i][j]; break;
+    case 8: m->setDiagonal({1., 2., 3.}); for (int i = 0; i < 3; i++) for (int j = 0; j < 3; j++) c.m[i][j] = i == j ? i + 1. : 0.; break;
+    case 9: m->setDiagonalToConstant(3.); for (int i = 0; i < 3; i++) for (int j = 0; j < 3; j++) c.m[i][j] = i == j ? 3. : 0.; break;
+    case 10: m->fill(1.5); for (auto& r : c.m) for (double& x : r) x = 1.5; break;
+    case 11: m->linearCombination(2., m, 1., Y); for (int i = 0; i < 3; i++) for (int j = 0; j < 3; j++) c.m[i][j] = 2. * c.m[i][j] + y.m[i][j]; break;
+    case 12: if constexpr (std::is_same<M, MatrixSquareSymmetric>::value) (void)m->computeEigen(); else return false; break;  // pure observers: the content does not move
+    case 13: (void)m->determinant(); break;
+    case 14: { M cp(*m); (void)cp.invert(); break; }
+  }
+  return true;
+}
+template<class M> static Answer mat_answer(M* m)
+{
+  Answer a;
+  fm(a, "values", *m);
+  fn(a, "determinant", m->determinant());
+  fn(a, "isSymmetric", m->isSymmetric());
+  fv(a, "prodMatVec", m->prodMatVec({1., 2., 3.}));
+  fn(a, "getMinimum", m->getMinimum()); fn(a, "getMaximum", m->getMaximum());
+  { M cp(*m); int rc = cp.invert(); Fld f{"inverse", "rc=" + std::to_string(rc), {}}; if (rc == 0) for (int i = 0; i < 3; i++) for (int j = 0; j < 3; j++) f.v.push_back(cp.getValue(i, j)); a.push_back(f); }
+  if constexpr (std::is_same<M, MatrixSquareSymmetric>::value)
+  {
+    int rc = m->computeEigen();
+    Fld f{"computeEigen+getEigenValues", "rc=" + std::to_string(rc), {}};
+    if (rc == 0) for (double e : m->getEigenValues()) f.v.push_back(e);
+    a.push_back(f);
+    Fld g{"getEigenVectors(abs)", "", {}};
+    if (rc == 0 && m->getEigenVectors() != nullptr) for (int i = 0; i < 3; i++) for (int j = 0; j < 3; j++) g.v.push_back(std::fabs(m->getEigenVectors()->getValue(i, j)));
+    // eigenvectors of a (nearly) multiple eigenvalue are not defined: judged only when the spectrum is simple
+    bool simple = f.v.size() == 3;
+    for (size_t i = 0; i + 1 < f.v.size(); i++) if (std::fabs(f.v[i] - f.v[i + 1]) < 1e-6 * (1 + std::fabs(f.v[i]))) simple = false;
+    if (!simple) g.v.clear();
+    a.push_back(g);
+  }
+  ft(a, "toString", m->toString());
+  return a;
+}
+template<class M> static void mat_explore(Ctx& C, const std::string& cls, int depth)
+{
+  MatContent c0{{{4, 1, 0.5}, {1, 3, 0.25}, {0.5, 0.25, 2}}};
+  explore<M, MatContent>(C, cls, MAT_NOPS, depth, [=]() { return mat_make<M>(c0); }, [=]() { return c0; }, mat_apply<M>, mat_opname,
+    [](const MatContent& c) { return mat_make<M>(c); }, mat_answer<M>, [](const MatContent& c) { Hash h; for (auto& r : c.m) for (double x : r) h.d(x); return h.h; });
+}
+}  // namespace inc
+VF_PART(incr_matrix_symmetric) { inc::mat_explore<MatrixSquareSymmetric>(C, "MatrixSquareSymmetric", C.thorough() ? 4 : 3); }
+VF_PART(incr_matrix_general) { inc::mat_explore<MatrixSquareGeneral>(C, "MatrixSquareGeneral", C.thorough() ? 4 : 3); }
+
+// ---------------------------------------------------------------------------------------------- NeighMoving, AnamHermite, Db
+namespace inc
+{
+struct NeighContent { int nmaxi, nmini, nsect, nsmax; double distcont; };
+static Db* g_ndb = nullptr; static DbGrid* g_ngrid = nullptr;
+static Answer neigh_answer(NeighMoving* n)
+{
+  if (!g_ndb) { g_ndb = make_db_xz({{0, 1, 0, 2, 3, 1, 2}, {0, 0, 1, 2, 1, 2, 0}}, {{1, 2, 0.5, -1, 3, 4, 5}}); g_ngrid = DbGrid::create({2, 2}, {1., 1.}, {0.75, 0.75}); }
+  Answer a;
+  fn(a, "getNMaxi", n->getNMaxi()); fn(a, "getNMini", n->getNMini()); fn(a, "getNSect", n->getNSect()); fn(a, "getNSMax", n->getNSMax()); fn(a, "getDistCont", n->getDistCont());
+  fn(a, "getFlagSector", n->getFlagSector()); fn(a, "getFlagContinuous", n->getFlagContinuous()); fn(a, "getRadius", n->getRadius()); fn(a, "getMaxSampleNumber", n->getMaxSampleNumber(g_ndb));
+  ft(a, "toString", n->toString());
+  { std::ostringstream os; n->_serialize(os, false); ft(a, "serialized", os.str()); }
+  n->attach(g_ndb, g_ngrid);
+  std::string t;
+  for (int ie = 0; ie < 4; ie++) { VectorInt r; n->select(ie, r); t += "[" ; for (int k : r) t += std::to_string(k) + ","; t += "]"; }
+  ft(a, "select on 4 targets", t);
+  return a;
+}
+static bool neigh_apply(NeighMoving* n, NeighContent& c, int op)
+{
+  switch (op)
+  {
+    case 0: n->setNMaxi(2); c.nmaxi = 2; break; case 1: n->setNMaxi(5); c.nmaxi = 5; break; case 2: n->setNMini(2); c.nmini = 2; break; case 3: n->setNMini(1); c.nmini = 1; break;
+    case 4: n->setNSect(4); c.nsect = 4; break; case 5: n->setNSect(1); c.nsect = 1; break; case 6: n->setNSMax(1); c.nsmax = 1; break; case 7: n->setNSMax(2); c.nsmax = 2; break;
+    case 8: n->setDistCont(0.5); c.distcont = 0.5; break; case 9: n->setDistCont(TEST); c.distcont = TEST; break;
+    case 10: { VectorInt r; n->attach(g_ndb ? g_ndb : (neigh_answer(n), g_ndb), g_ngrid); n->select(1, r); break; }  // a use between two updates
+  }
+  return true;
+}
+static std::string neigh_opname(int op) { static const char* nm[11] = {"setNMaxi(2)", "setNMaxi(5)", "setNMini(2)", "setNMini(1)", "setNSect(4)", "setNSect(1)", "setNSMax(1)", "setNSMax(2)", "setDistCont(0.5)", "setDistCont(TEST)", "attach+select(1)"}; return nm[op]; }
+
+struct AnamContent { double psi[4]; double r; bool bound; };
+static const double ANAM_B[8] = {-3., 0.25, 3., 9., -2.5, 0.5, 2.5, 8.};  // pymin pzmin pymax pzmax aymin azmin aymax azmax
+static AnamHermite* anam_build(const AnamContent& c)
+{
+  AnamHermite* a = AnamHermite::create(4, c.bound, c.r);
+  a->reset(ANAM_B[0], ANAM_B[1], ANAM_B[2], ANAM_B[3], ANAM_B[4], ANAM_B[5], ANAM_B[6], ANAM_B[7], c.r, {c.psi[0], c.psi[1], c.psi[2], c.psi[3]});
+  return a;
+}
+static bool anam_apply(AnamHermite* a, AnamContent& c, int op)
+{
+  switch (op)
+  {
+    case 0: a->setPsiHns({3., -1.5, 0.5, 0.125}); c.psi[0] = 3.; c.psi[1] = -1.5; c.psi[2] = 0.5; c.psi[3] = 0.125; break;
+    case 1: a->setPsiHns({4., -2., 0.25, 0.}); c.psi[0] = 4.; c.psi[1] = -2.; c.psi[2] = 0.25; c.psi[3] = 0.; break;
+    case 2: a->setPsiHn(1, -0.75); c.psi[1] = -0.75; break;
+    case 3: a->setPsiHn(2, 0.375); c.psi[2] = 0.375; break;
+    case 4: a->setRCoef(0.5); c.r = 0.5; break;
+    case 5: a->setRCoef(1.); c.r = 1.; break;
+    case 6: a->setFlagBound(false); c.bound = false; break;
+    case 7: a->setFlagBound(true); c.bound = true; break;
+    case 8: (void)a->transformToRawValue(0.5); (void)a->getVariance(); break;  // a use between two updates
+  }
+  return true;
+}
+static std::string anam_opname(int op) { static const char* nm[9] = {"setPsiHns(A)", "setPsiHns(B)", "setPsiHn(1,-0.75)", "setPsiHn(2,0.375)", "setRCoef(0.5)", "setRCoef(1)", "setFlagBound(false)", "setFlagBound(true)", "transformToRawValue+getVariance"}; return nm[op]; }
+static Answer anam_answer(AnamHermite* a)
+{
+  Answer w;
+  fv(w, "getPsiHns", a->getPsiHns()); fn(w, "getRCoef", a->getRCoef()); fn(w, "getFlagBound", a->getFlagBound()); fn(w, "getNbPoly", a->getNbPoly());
+  fn(w, "getMean", a->getMean()); fn(w, "getVariance", a->getVariance());
+  fn(w, "computeVariance(0.5)", a->computeVariance(0.5)); fn(w, "computeVariance(1)", a->computeVariance(1.));
+  VectorDouble y, z;
+  for (double t : {-3.5, -1., 0., 0.5, 2., 3.5}) y.push_back(a->transformToRawValue(t));
+  for (double t : {0., 1., 2.5, 6., 10.}) z.push_back(a->rawToTransformValue(t));
+  fv(w, "transformToRawValue(menu)", y); fv(w, "rawToTransformValue(menu)", z);
+  ft(w, "toString", a->toString());
+  { std::ostringstream os; a->_serialize(os, false); ft(w, "serialized", os.str()); }
+  return w;
+}
+
+struct DbContent { std::vector<std::vector<double>> col; };  // x1 x2 z1
+static bool db_apply(Db* d, DbContent& c, int op)
+{
+  int n = (int)c.col[0].size();
+  switch (op)
+  {
+    case 0: d->addSamples(1, 0.5); for (auto& v : c.col) v.push_back(0.5); break;
+    case 1: if (n < 2) return false; d->deleteSample(0); for (auto& v : c.col) v.erase(v.begin()); break;
+    case 2: if (n < 2) return false; d->deleteSample(n - 1); for (auto& v : c.col) v.pop_back(); break;
+    case 3: d->setValue("z1", 1, 9.); c.col[2][1] = 9.; break;
+    case 4: d->setValue("x1", 0, -4.); c.col[0][0] = -4.; break;
+    case 5: d->setValue("z1", n - 1, TEST); c.col[2][n - 1] = TEST; break;
+    case 6: if (n < 3) return false; d->deleteSamples({0, 2}); for (auto& v : c.col) { v.erase(v.begin() + 2); v.erase(v.begin()); } break;
+    case 7: (void)d->getMean("z1"); (void)d->getExtrema(0); break;  // a use between two updates
+  }
+  return true;
+}
+static std::string db_opname(int op) { static const char* nm[8] = {"addSamples(1,0.5)", "deleteSample(0)", "deleteSample(last)", "setValue(z1,1,9)", "setValue(x1,0,-4)", "setValue(z1,last,TEST)", "deleteSamples({0,2})", "getMean+getExtrema"}; return nm[op]; }
+static Answer db_answer(Db* d)
+{
+  Answer a;
+  fn(a, "getSampleNumber", d->getSampleNumber()); fn(a, "getActiveSampleNumber", d->getActiveSampleNumber()); fn(a, "getColumnNumber", d->getColumnNumber()); fn(a, "getNDim", d->getNDim());
+  for (const char* nm : {"x1", "x2", "z1"}) { fv(a, std::string("getColumn(") + nm + ")", d->getColumn(nm)); fn(a, std::string("getMean(") + nm + ")", d->getMean(nm)); fn(a, std::string("getVariance(") + nm + ")", d->getVariance(nm)); fn(a, std::string("getMinimum(") + nm + ")", d->getMinimum(nm)); fn(a, std::string("getMaximum(") + nm + ")", d->getMaximum(nm)); }
+  fv(a, "getExtrema(0)", d->getExtrema(0)); fv(a, "getExtrema(1)", d->getExtrema(1)); fn(a, "getExtensionDiagonal", d->getExtensionDiagonal());
+  fn(a, "getNumberActiveAndDefined(0)", d->getNumberActiveAndDefined(0));
+  ft(a, "toString", d->toString());
+  return a;
+}
+}  // namespace inc
+VF_PART(incr_neighmoving)
+{
+  using namespace inc;
+  NeighContent c0{5, 1, 1, ITEST, TEST};
+  explore<NeighMoving, NeighContent>(C, "NeighMoving", 11, C.thorough() ? 4 : 3, [] { return NeighMoving::create(false, 5, 2.5); }, [=] { return c0; }, neigh_apply, neigh_opname,
+    [](const NeighContent& c) { NeighMoving* n = NeighMoving::create(false, c.nmaxi, 2.5, c.nmini, c.nsect, c.nsmax); if (!FFFF(c.distcont)) n->setDistCont(c.distcont); return n; }, neigh_answer,
+    [](const NeighContent& c) { return Hash().i(c.nmaxi).i(c.nmini).i(c.nsect).i(c.nsmax).d(c.distcont).h; });
+}
+VF_PART(incr_anamhermite)
+{
+  using namespace inc;
+  AnamContent c0{{2., -1., 0.25, 0.0625}, 1., true};
+  explore<AnamHermite, AnamContent>(C, "AnamHermite", 9, C.thorough() ? 4 : 3, [=] { return anam_build(c0); }, [=] { return c0; }, anam_apply, anam_opname,
+    [](const AnamContent& c) { return anam_build(c); }, anam_answer, [](const AnamContent& c) { return Hash().d(c.psi[0]).d(c.psi[1]).d(c.psi[2]).d(c.psi[3]).d(c.r).i(c.bound).h; });
+}
+VF_PART(incr_db)
+{
+  using namespace inc;
+  DbContent c0{{{0, 1, 0, 2}, {0, 0, 1, 2}, {1, 2, 0.5, -1}}};
+  explore<Db, DbContent>(C, "Db", 8, C.thorough() ? 4 : 3, [=] { return make_db_xz({c0.col[0], c0.col[1]}, {c0.col[2]}); }, [=] { return c0; }, db_apply, db_opname,
+    [](const DbContent& c) { return make_db_xz({c.col[0], c.col[1]}, {c.col[2]}); }, db_answer, [](const DbContent& c) { Hash h; for (auto& v : c.col) h.vd(v); return h.h; });
 }
 
 int main(int argc, char** argv)
